@@ -26,6 +26,9 @@ CONSTANTS
   ReuseEvicted = FALSE
   SharedKey = FALSE
   ChargeBeforeFit = FALSE
+  LimitInternal = FALSE
+  Aliases = {}
+  AliasTarget = "q1"
 SPECIFICATION FairSpec
 INVARIANTS TypeOK
 PROPERTIES CallsComplete JobsReplayed BucketsRefill
